@@ -152,6 +152,8 @@ struct OneShotSim : Sim {
                         default: return 16 + (v >> 3) % 65536;
                         }
                 case OK_CBC:
+                        if ((v & 0x1f0000) == 0) // 1 in 32: an empty message (0 is a multiple of 16)
+                                return 0;
                         switch (v % 4) {
                         case 0:
                         case 1: return 16 * (1 + (v >> 2) % 40);
